@@ -13,6 +13,8 @@ import (
 type Schema struct {
 	Desc         string    `json:"desc"`
 	SD           bool      `json:"sd"` // explicit `schema { .. }` definition
+	STags        []string  `json:"stags"`  // directives applied to the schema definition
+	XRoots       bool      `json:"xroots"` // mutation / subscription roots declared in `extend schema`
 	Query        string    `json:"query"`
 	Mutation     string    `json:"mutation"`
 	Subscription string    `json:"subscription"`
@@ -31,6 +33,20 @@ type TypeDef struct {
 	Inputs  []InputVal `json:"inputs"`
 	URL     string     `json:"url"`
 	Tags    []string   `json:"tags"` // applied custom directives (type-system directive applications)
+	Ext     int        `json:"ext"`  // trailing elements declared in a type extension
+}
+
+// HasExtensions: the SDL of the schema contains `extend ...`
+func (s *Schema) HasExtensions() bool {
+	if s.XRoots {
+		return true
+	}
+	for _, t := range s.Types {
+		if t.Ext > 0 {
+			return true
+		}
+	}
+	return false
 }
 
 type FieldDef struct {
@@ -292,18 +308,55 @@ func (s *Schema) defaultRoots() bool {
 // SDL prints the schema as a type-system document.
 func (s *Schema) SDL() string {
 	var b strings.Builder
+	var ext strings.Builder // the type extensions, printed after all definitions
 	if s.SD {
 		b.WriteString(descSDL(s.Desc, ""))
-		b.WriteString("schema {\n  query: " + s.Query + "\n")
+		b.WriteString("schema" + tagsSDL(s.STags) + " {\n  query: " + s.Query + "\n")
+		roots := ""
 		if s.Mutation != "" {
-			b.WriteString("  mutation: " + s.Mutation + "\n")
+			roots += "  mutation: " + s.Mutation + "\n"
 		}
 		if s.Subscription != "" {
-			b.WriteString("  subscription: " + s.Subscription + "\n")
+			roots += "  subscription: " + s.Subscription + "\n"
+		}
+		if s.XRoots {
+			ext.WriteString("extend schema {\n" + roots + "}\n\n")
+		} else {
+			b.WriteString(roots)
 		}
 		b.WriteString("}\n\n")
 	}
-	for _, t := range s.Types {
+	for _, full := range s.Types {
+		// the definition keeps all but the last Ext elements; the rest goes into `extend <kind> T`
+		t, x := full, full
+		switch full.Kind {
+		case "OBJECT", "INTERFACE":
+			t.Fields, x.Fields = full.Fields[:len(full.Fields)-full.Ext], full.Fields[len(full.Fields)-full.Ext:]
+		case "UNION":
+			t.Members, x.Members = full.Members[:len(full.Members)-full.Ext], full.Members[len(full.Members)-full.Ext:]
+		case "ENUM":
+			t.Values, x.Values = full.Values[:len(full.Values)-full.Ext], full.Values[len(full.Values)-full.Ext:]
+		case "INPUT_OBJECT":
+			t.Inputs, x.Inputs = full.Inputs[:len(full.Inputs)-full.Ext], full.Inputs[len(full.Inputs)-full.Ext:]
+		case "SCALAR":
+			if full.Ext > 0 {
+				t.Tags, t.URL = nil, ""
+			}
+		}
+		if full.Ext > 0 {
+			x.Desc, x.Ifaces, x.Ext = "", nil, 0
+			if full.Kind != "SCALAR" {
+				x.Tags = nil
+			}
+			var xs Schema
+			xs.Types = []TypeDef{x}
+			body := xs.SDL()
+			for _, kw := range []string{"type ", "interface ", "union ", "enum ", "input ", "scalar "} {
+				if strings.HasPrefix(body, kw) {
+					ext.WriteString("extend " + body)
+				}
+			}
+		}
 		b.WriteString(descSDL(t.Desc, ""))
 		switch t.Kind {
 		case "OBJECT", "INTERFACE":
@@ -353,5 +406,6 @@ func (s *Schema) SDL() string {
 		}
 		b.WriteString(" on " + strings.Join(d.Locs, " | ") + "\n\n")
 	}
+	b.WriteString(ext.String())
 	return b.String()
 }
